@@ -757,8 +757,12 @@ class _FuncAnalysis:
             if not rk.startswith("obj:") or rk[4:] not in {c.name for c in self.repo.all_classes()}:
                 if rk not in IMMUT_KINDS:
                     self._mutate(recv, stmt)
-                    if f.attr in ("append", "add", "insert", "appendleft", "setdefault", "__setitem__"):
+                    if f.attr in ("append", "add", "appendleft"):
                         for a in call.args:
+                            self._note_store(f.value, self._alias(a, env), env)
+                    elif f.attr in ("insert", "setdefault", "__setitem__"):
+                        # (index / key, value): only the value becomes an element of the container
+                        for a in call.args[1:]:
                             self._note_store(f.value, self._alias(a, env), env)
                     elif f.attr in ("extend", "update", "extendleft"):
                         for a in call.args:
